@@ -288,7 +288,12 @@ class VectorContainer:
         if isinstance(value, Sequence) and not isinstance(value, str):
             value_as_array = np.array(value, dtype=self.__dict__['_' + name].dtype)
 
-            if value_as_array.shape[0] != len(self.__dict__['span']):
+            # The replacement must be one-dimensional (e.g. not a nested list)
+            # and of the same length as `span`
+            if (
+                value_as_array.ndim != 1
+                or value_as_array.shape[0] != len(self.__dict__['span'])
+            ):
                 raise DimensionError(
                     f"Invalid assignment for '{name}': "
                     f"must be either a single value or "
